@@ -307,6 +307,15 @@ class PCSO(PUSO):
         return PCBO.is_solution_valid(self, solution)
 
     # override
+    def __imul__(self, other):
+        """__imul__.
+
+        See ``PCBO.__imul__``.
+
+        """
+        return PCBO.__imul__(self, other)
+
+    # override
     def __round__(self, ndigits=None):
         """round.
 
